@@ -236,3 +236,46 @@ def replay_tower(task, env, spec_polys, n_out):
     if out[:len(want)] != want:
         return True, {'task': task, 'inputs': {k: '%064x' % v for k, v in env.items()}, 'native_output': ['%064x' % x for x in out], 'expected': ['%064x' % x for x in want]}
     return False, {}
+
+
+def replay_wrap(entry, modes):
+    """native: the entry point on representatives of the given kinds vs the value on normalised inputs / one"""
+    exe = kani.build_replay('release')
+    if not exe:
+        return False, {'error': 'replay build failed'}
+    p = subprocess.run([exe, '--wrap', entry, modes], capture_output=True, text=True, timeout=600)
+    out = (p.stdout + p.stderr).strip()
+    if 'MISMATCH' in out or 'PANIC' in out:
+        return True, {'entry': entry, 'modes': modes, 'mismatch': out.splitlines()[-1][:300]}
+    return False, {'note': out[-200:]}
+
+
+def replay_sqrt(family):
+    """native Fq2::sqrt on concrete members of the family; squares must give Some(s) with s^2 = x"""
+    import random
+    r = random.Random(5)
+    half = (Q - 1) // 2
+    cands = []
+    if family in ('fq2_sqrt_of_real', 'general'):
+        for a in (Q - 1, 2, 4, Q - 4, 3, Q - 3, 5, half, half + 1, r.randrange(1, Q), r.randrange(1, Q)):
+            cands.append(('fq2_sqrt_of_real', {'a': a}, True, (a, 0)))
+    if family in ('fq2_sqrt_of_square', 'general'):
+        for _ in range(6):
+            c0, c1 = r.randrange(1, Q), r.randrange(1, Q)
+            cands.append(('fq2_sqrt_of_square', {'c00': c0, 'c01': c1, 'c0': c0, 'c1': c1}, True, F2.mul((c0, c1), (c0, c1))))
+    if family == 'fq2_sqrt_of_imag':
+        for _ in range(4):
+            b = r.randrange(1, Q)
+            cands.append(('fq2_sqrt_of_imag', {'b': b}, False, (0, b)))
+    for task, env, expect_some, x in cands:
+        out, err = native_alg(task, env)
+        if out is None:
+            return False, {'error': err}
+        some = out[0] == 1
+        if some:
+            s = (out[1], out[2])
+            if F2.mul(s, s) != x:
+                return True, {'task': task, 'inputs': {k: '%064x' % v for k, v in env.items()}, 'mismatch': 'sqrt returned s with s*s != x'}
+        if some != expect_some:
+            return True, {'task': task, 'inputs': {k: '%064x' % v for k, v in env.items()}, 'mismatch': 'Fq2::sqrt returned %s for x = %s' % ('Some' if some else 'None', ['%x' % c for c in x])}
+    return False, {}
